@@ -63,6 +63,32 @@ impl PathSliceList {
         Ok(())
     }
 
+    /// The index update trees of the loops whose item is the root of this path
+    /// (the l-value path of a loop item contains its index, so it changes when the index does).
+    fn collect_lvalue_index_trees(&self, scopes: &Vec<ScopeVar>, out: &mut Vec<String>) {
+        match self.0.first() {
+            Some(PathSlice::ScopeIndex(i)) => {
+                if let ScopeVarLvaluePath::Var { .. } = &scopes[*i].lvalue_path {
+                    // (the index scope of a loop follows its item scope)
+                    if let Some(tree) = scopes.get(*i + 1).and_then(|x| x.update_path_tree.as_ref()) {
+                        let tree = tree.to_string();
+                        if !out.contains(&tree) {
+                            out.push(tree);
+                        }
+                    }
+                }
+            }
+            Some(PathSlice::Condition(_, (true_pas, _), (false_pas, _))) => {
+                for pas in [true_pas, false_pas] {
+                    if let PathAnalysisState::InPath(x) = pas {
+                        x.collect_lvalue_index_trees(scopes, out);
+                    }
+                }
+            }
+            _ => {}
+        }
+    }
+
     fn is_legal_lvalue_path(&self, scopes: &Vec<ScopeVar>, model: Option<bool>) -> bool {
         let mut iter = self.0.iter();
         match iter.next() {
@@ -1281,6 +1307,22 @@ impl ExpressionProcGen {
         } else {
             false
         }
+    }
+
+    /// Write `<tree>||` for every loop index the l-value path depends on (a prefix of a guard expression).
+    pub(crate) fn lvalue_path_index_state_prefix<W: Write>(
+        &self,
+        w: &mut JsExprWriter<W>,
+        scopes: &Vec<ScopeVar>,
+    ) -> Result<(), TmplError> {
+        if let PathAnalysisState::InPath(psl) = &self.pas {
+            let mut trees = vec![];
+            psl.collect_lvalue_index_trees(scopes, &mut trees);
+            for tree in trees {
+                write!(w, "{}||", tree)?;
+            }
+        }
+        Ok(())
     }
 
     pub(crate) fn lvalue_path<W: Write>(
